@@ -137,7 +137,8 @@ class TokenParser(Parser):
 
         factory = self.cstruct._make_flag if enumtype == "flag" else self.cstruct._make_enum
 
-        enum = factory(d["name"] or "", self.cstruct.resolve(d["type"]), values)
+        # The words of a multi-word type may be separated by any amount of whitespace
+        enum = factory(d["name"] or "", self.cstruct.resolve(" ".join(d["type"].split())), values)
         if not enum.__name__:
             self.cstruct.consts.update(enum.__members__)
         else:
